@@ -70,3 +70,24 @@ Open Scope Q_scope.
 Example C16_example :
   @sarsa QN (1#2) (1#2) ([1#2; 1; 0] : list QN) ([1; 1#4; 3#4] : list QN) = ([1; 5#8] : list QN).
 Proof. vm_compute. reflexivity. Qed.
+
+(* the edges of the TD parameters: lambda = 0 still starts from the current estimate (and that differs from the
+   "untrained" short-cut clip(alpha r) whenever the estimate is positive and alpha < 1); alpha = 0 keeps the estimate *)
+From ART Require Import Falcon_edge.
+Theorem C16_target_without_bootstrapping :
+  forall alpha (Q r : list R) t q0 q1 r0,
+    nth_error Q t = Some q0 -> nth_error Q (S t) = Some q1 -> nth_error r t = Some r0 ->
+    nth_error (@sarsa RN alpha 0 Q r) t = Some (@clip01 RN (q0 + alpha * (r0 - q0))).
+Proof. exact sarsa_without_bootstrapping. Qed.
+Theorem C16_untrained_shortcut_is_not_the_target :
+  forall alpha (q0 r0 : R), 0 <= alpha < 1 -> 0 < q0 <= 1 -> 0 <= r0 <= 1 ->
+    @clip01 RN (q0 + alpha * (r0 - q0)) <> @clip01 RN (alpha * r0).
+Proof. exact shortcut_differs. Qed.
+Theorem C16_target_with_alpha_zero :
+  forall lambda (Q r : list R) t q0 q1 r0,
+    nth_error Q t = Some q0 -> nth_error Q (S t) = Some q1 -> nth_error r t = Some r0 ->
+    nth_error (@sarsa RN 0 lambda Q r) t = Some (@clip01 RN q0).
+Proof. exact sarsa_alpha_zero. Qed.
+Print Assumptions C16_target_without_bootstrapping.
+Print Assumptions C16_untrained_shortcut_is_not_the_target.
+Print Assumptions C16_target_with_alpha_zero.
